@@ -10,9 +10,8 @@
     the statement holds for every packet of a stream (`alac_lossless_mono_stream`).
   * `alac_mono_element_lossless`: the same for one ID_SCE / ID_LFE element inside any packet (any position, any bits behind it).
   It puts together the parameter block, the shifted-off bytes, `dyn_decomp ∘ dyn_comp = id` (C01AlacGolomb),
-  `unpc_block ∘ pc_block = id` (C01AlacInv) and the output conversion. NOT proved: the same for channel PAIRS (ID_CPE, the
-  mixRes search; its components `unmix ∘ mix = id`, the Golomb coder and the predictor are proved) — the pair path is tied to
-  the library by the `dec` / `encx` / `file` correspondence streams.
+  `unpc_block ∘ pc_block = id` (C01AlacInv) and the output conversion. Channel pairs and every channel count:
+  lean/SfProps/C01AlacLosslessAll.lean (`alac_lossless`).
 -/
 import SfProofs.AlacEncState
 import SfProofs.AlacLoop
